@@ -98,6 +98,10 @@ func (s *snmpService) Handle(_ context.Context, conn net.Conn) error {
 		return err
 	}
 
+	if !lengthsFit(buf, 0) {
+		return fmt.Errorf("snmp: element length exceeds its container")
+	}
+
 	request := Message{}
 	ctx := Asn1Context()
 	remaining, err := ctx.Decode(buf, &request)
